@@ -183,6 +183,7 @@ pub struct Sim {
     hash_seed: u64,
     io_exit_seq: Option<u64>,
     draining: bool,
+    gates: Vec<u64>,
 }
 
 static SIM: Mutex<Option<Box<Sim>>> = Mutex::new(None);
@@ -534,6 +535,7 @@ pub fn start(choices: ChoiceStream, cfg: SchedCfg, hash_seed: u64) {
         hash_seed,
         io_exit_seq: None,
         draining: false,
+        gates: Vec::new(),
     }));
     TID.with(|t| t.set(0));
     TGEN.with(|t| t.set(gen));
@@ -1015,5 +1017,33 @@ pub fn sleep_ns(ns: u64) {
             return;
         }
         park_on("sleep", &[], Some(deadline));
+    }
+}
+
+/// Harness gates: a sim thread waits until the controller opens the gate.
+pub fn gate_open(id: u64) {
+    let mut g = lock();
+    if let Some(sim) = g.as_mut() {
+        if !sim.gates.contains(&id) {
+            sim.gates.push(id);
+        }
+        sim.bump(Key::User(id));
+    }
+}
+
+pub fn gate_is_open(id: u64) -> bool {
+    let g = lock();
+    g.as_ref().map(|s| s.gates.contains(&id)).unwrap_or(true)
+}
+
+pub fn gate_wait(id: u64) {
+    if !is_sim_thread() || my_tid() == 0 {
+        return;
+    }
+    loop {
+        if gate_is_open(id) || poisoned() {
+            return;
+        }
+        park_on("gate", &[Key::User(id)], None);
     }
 }
